@@ -99,9 +99,31 @@ one_value(const struct cfg *c, uint64_t bits)
     char ctx[96];
     nset++;
 
+    /* behind a callback the device may refuse the write (one word of the register cannot be programmed): a set that
+     * would otherwise be accepted then fails - with whatever code - and nothing is stored; every 16th value */
+    if (c->custom && (nset & 15u) == 7u)
+        for (int unsafe = 0; unsafe < 2; unsafe++) {
+            if (!(unsafe ? finite : accept))
+                continue;
+            static const int devcodes[] = { REG_ACCESS_IO_ERROR, REG_ACCESS_FAILURE, REG_ACCESS_READONLY };
+            rt_cb_fail_area = 0;
+            rt_cb_fail_word = r->addr - inst.d.area[0].base + (uint32_t)((nset >> 4) % rt_tsize[c->type]);
+            rt_cb_fail_code = devcodes[(nset >> 6) % 3];
+            rt_cb_fail_hits = 0;
+            RegisterAccess a = unsafe ? register_set_unsafe(&inst.t, 1, v) : register_set(&inst.t, 1, v);
+            rt_cb_fail_area = -1;
+            const char *key = ckey(c, unsafe ? "register_set_unsafe" : "register_set");
+            snprintf(ctx, sizeof ctx, "value bits %016" PRIx64 ", device refuses word %u", bits, rt_cb_fail_word);
+            if (rt_cb_fail_hits && a.code == REG_ACCESS_SUCCESS)
+                vh_fail("device-refusal-reported-as-success", key, "%s (%u refusals, code %d): set returns success", ctx, rt_cb_fail_hits,
+                        rt_cb_fail_code);
+            if (!rt_compare_storage(&inst, "device-refusal-changes-storage", key, ctx))
+                rt_sync_model_from_storage(&inst);
+            VH_COUNT("set refused by the device behind the callback");
+        }
     for (int unsafe = 0; unsafe < 2; unsafe++) {
         int expect_ok = unsafe ? finite : accept;
-        const unsigned vcalls = rt_val_calls;
+        const unsigned vcalls = rt_val_calls, wcalls = inst.cb_writes;
         RegisterAccess a = unsafe ? register_set_unsafe(&inst.t, 1, v) : register_set(&inst.t, 1, v);
         const char *key = ckey(c, unsafe ? "register_set_unsafe" : "register_set");
         snprintf(ctx, sizeof ctx, "value bits %016" PRIx64, bits);
@@ -139,6 +161,11 @@ one_value(const struct cfg *c, uint64_t bits)
                         !finite ? "NaN/infinite/subnormal" : "violates the constraint", a.code);
             if (!rt_compare_storage(&inst, "refused-set-changes-storage", key, ctx))
                 rt_sync_model_from_storage(&inst);
+            /* behind a callback "unchanged" means that the device was not written at all (a write that is taken
+             * back afterwards has happened as far as the device is concerned) */
+            if (a.code != REG_ACCESS_SUCCESS && inst.cb_writes != wcalls)
+                vh_fail("refused-set-writes-device", key, "%s: code=%d, yet the area's write callback was called %u times", ctx, a.code,
+                        inst.cb_writes - wcalls);
             if (!finite)
                 VH_COUNT("non-finite float refused");
             else
@@ -413,6 +440,7 @@ harness_run(void)
     for (uint64_t i = 0; i < 64; i++)
         vh_unit("counts", i, u_counts, NULL);
     vh_require("bad handle probed on a table with no registers");
+    vh_require("set refused by the device behind the callback");
     vh_require("bad handle probed on a table with one register");
     static const char *req[] = { "checked set accepted", "unchecked set stored", "constraint violation refused",
                                  "non-finite float refused", "bad handle probed", "type mismatch refused",
